@@ -26,14 +26,21 @@ EXTENDS Integers, Sequences, FiniteSets, TLC
 
 CONSTANTS L,            \* chains have events 0..L
           MaxMut,       \* number of mutations
-          TailAlways, StrictEqual
+          TailAlways, StrictEqual, FirstPhCheck
 
 Chains == {"A", "B"}
 Val(c, i) == IF i = 0 THEN <<"one", 0>> ELSE <<c, i>>
 ZeroHash == [alg |-> "sha256", cut |-> "full", of |-> [zero |-> TRUE]]
-HashOf(ev) == [alg |-> "sha256", cut |-> "full", of |-> ev]
+\* An event is hashed as  index || parent hash bytes || value bytes  WITHOUT framing.  sh = 1 says: on the wire
+\* the leading byte of the value has been moved to the end of the parent hash (the value on the wire is the
+\* remainder <<c, i + 100>>, the parent hash on the wire is a raw extension); the bytes hashed are unchanged,
+\* so the hash ignores sh.
+Strip(ev) == [idx |-> ev.idx, e |-> ev.e, ph |-> ev.ph]
+HashOf(ev) == [alg |-> "sha256", cut |-> "full", of |-> Strip(ev)]
+WireE(ev) == IF ev.sh = 1 THEN <<ev.e[1], ev.e[2] + 100>> ELSE ev.e
+WirePh(ev) == IF ev.sh = 1 THEN [ev.ph EXCEPT !.cut = "rawext"] ELSE ev.ph
 RECURSIVE Ev(_, _)
-Ev(c, i) == [idx |-> i, e |-> Val(c, i), ph |-> IF i = 0 THEN ZeroHash ELSE HashOf(Ev(c, i - 1))]
+Ev(c, i) == [idx |-> i, e |-> Val(c, i), ph |-> IF i = 0 THEN ZeroHash ELSE HashOf(Ev(c, i - 1)), sh |-> 0]
 Acc(c, i, t) == [nu |-> <<c, i>>, idx |-> i, time |-> t, eh |-> HashOf(Ev(c, i))]
 Sacc(c, i, t) == [key |-> 0, over |-> Acc(c, i, t), ctr |-> 0, payload |-> Acc(c, i, t)]
 Window(c, f, a) == [k \in 1..(a - f + 1) |-> Ev(c, f + k - 1)]       \* <<>> when f > a
@@ -41,7 +48,7 @@ Window(c, f, a) == [k \in 1..(a - f + 1) |-> Ev(c, f + k - 1)]       \* <<>> whe
 Cuts == {"full", "rawpre", "lenpre", "rawext", "lenext"}
 EmptyHash == [alg |-> "none", cut |-> "empty", of |-> [zero |-> TRUE]]      \* the zero-length byte string
 GenuineEvents == { Ev(c, i) : c \in Chains, i \in 0..L }
-HashPool == { [alg |-> al, cut |-> cu, of |-> ev] : al \in {"sha256", "other"}, cu \in Cuts, ev \in GenuineEvents } \cup {ZeroHash, EmptyHash}
+HashPool == { [alg |-> al, cut |-> cu, of |-> Strip(ev)] : al \in {"sha256", "other"}, cu \in Cuts, ev \in GenuineEvents } \cup {ZeroHash, EmptyHash}
 Vals == { Val(c, i) : c \in Chains, i \in 0..L } \cup {<<"fresh", 0>>}
 
 VARIABLES msg,     \* [sacc, events, transported]
@@ -59,11 +66,13 @@ SetEv(j, ev) == [msg EXCEPT !.events[j] = ev]
 RemoveAt(s, j) == [k \in 1..(Len(s) - 1) |-> IF k < j THEN s[k] ELSE s[k + 1]]
 InsertAt(s, j, x) == [k \in 1..(Len(s) + 1) |-> IF k < j THEN s[k] ELSE IF k = j THEN x ELSE s[k - 1]]
 
-SetE == \E j \in 1..N, v \in Vals : Mut(SetEv(j, [msg.events[j] EXCEPT !.e = v]))
+SetE == \E j \in 1..N, v \in Vals : msg.events[j].sh = 0 /\ Mut(SetEv(j, [msg.events[j] EXCEPT !.e = v]))
 SetIdx == \E j \in 1..N, i \in 0..(L + 1) : Mut(SetEv(j, [msg.events[j] EXCEPT !.idx = i]))
-SetPh == \E j \in 1..N, h \in HashPool : Mut(SetEv(j, [msg.events[j] EXCEPT !.ph = h]))
+SetPh == \E j \in 1..N, h \in HashPool : msg.events[j].sh = 0 /\ Mut(SetEv(j, [msg.events[j] EXCEPT !.ph = h]))
 Del == \E j \in 1..N : Mut([msg EXCEPT !.events = RemoveAt(@, j)])
 Ins == \E j \in 1..(N + 1), ev \in GenuineEvents : N <= L + 1 /\ Mut([msg EXCEPT !.events = InsertAt(@, j, ev)])
+ShiftB == \E j \in 1..N : msg.events[j].sh = 0 /\ msg.events[j].ph.cut = "full" /\ msg.events[j].e[2] < 100
+                         /\ Mut(SetEv(j, [msg.events[j] EXCEPT !.sh = 1]))
 Swap == \E j \in 1..(N - 1) : Mut([msg EXCEPT !.events = [@ EXCEPT ![j] = msg.events[j + 1], ![j + 1] = msg.events[j]]])
 ReplaceSacc == \E c \in Chains, i \in 0..L, t \in {0, 1} : Mut([msg EXCEPT !.sacc = Sacc(c, i, t)])
 SetCtr == Mut([msg EXCEPT !.sacc.ctr = 1])
@@ -76,7 +85,7 @@ SetPayload == \/ \E i \in 0..L : Mut([msg EXCEPT !.sacc.payload.idx = i])
 RECURSIVE Recompute(_, _)
 Recompute(evs, k) == IF k = 1 THEN <<evs[1]>>
                      ELSE LET pre == Recompute(evs, k - 1)
-                          IN Append(pre, [idx |-> evs[1].idx + k - 1, e |-> evs[k].e, ph |-> HashOf(pre[k - 1])])
+                          IN Append(pre, [idx |-> evs[1].idx + k - 1, e |-> WireE(evs[k]), ph |-> HashOf(pre[k - 1]), sh |-> 0])
 \* JSON decodes a hash with multihash.MHFromBytes: bytes after the declared length are dropped (a raw
 \* extension is normalised away), a hash shorter than its declared length does not decode at all (the
 \* message is refused by the decoder); CBOR carries the bytes as they are
@@ -85,12 +94,13 @@ JsonDecodes(h) == h.cut # "rawpre"       \* (the empty hash decodes since fix 79
 Transport(kind) ==
    /\ msg.transported = "no"
    /\ (kind = "json" /\ N > 0) => JsonDecodes(msg.events[1].ph)
-   /\ LET first == IF kind = "json" THEN [msg.events[1] EXCEPT !.ph = JsonHash(@)] ELSE msg.events[1]
+   /\ LET f1 == msg.events[1]
+           first == IF kind = "json" THEN [idx |-> f1.idx, e |-> WireE(f1), ph |-> JsonHash(f1.ph), sh |-> 0] ELSE f1
            evs == [msg.events EXCEPT ![1] = first]
       IN msg' = [msg EXCEPT !.transported = kind, !.events = IF N = 0 THEN <<>> ELSE Recompute(evs, N)]
    /\ UNCHANGED <<nmut, base>>
 
-Next == SetE \/ SetIdx \/ SetPh \/ Del \/ Ins \/ Swap \/ ReplaceSacc \/ SetCtr \/ SetKey \/ SetPayload \/ Transport("json") \/ Transport("cbor")
+Next == SetE \/ SetIdx \/ SetPh \/ Del \/ Ins \/ Swap \/ ShiftB \/ ReplaceSacc \/ SetCtr \/ SetKey \/ SetPayload \/ Transport("json") \/ Transport("cbor")
 Spec == Init /\ [][Next]_vars
 
 \* ------------------------------------------------------------------ acceptance, transcribed
@@ -104,12 +114,14 @@ Equal(h1, h2) == IF StrictEqual THEN h1 = h2
 Decodes(h) == h.cut \in {"full", "lenpre", "lenext"}
 HashEq(ev, h) == Decodes(h) /\ h.alg = "sha256" /\ Equal(HashOf(ev), h)
 SigOK(s) == s.ctr = 0 /\ s.key = 0 /\ s.over = s.payload
-ChainOK(evs) == /\ \A k \in 2..Len(evs) : HashEq(evs[k - 1], evs[k].ph)
+ChainOK(evs) == /\ \A k \in 2..Len(evs) : HashEq(evs[k - 1], WirePh(evs[k]))
                 /\ \A k \in 1..Len(evs) : evs[k].idx = evs[1].idx + k - 1
+\* the parent hash of the first event must be a well-formed hash (fix 39af8cd; FirstPhCheck = FALSE is the code before)
+FirstPhOK(evs) == FirstPhCheck => (Decodes(WirePh(evs[1])) /\ evs[1].ph.alg = "sha256")
 ELVerifyOK(evs, acc, memo) ==
    \/ Len(evs) = 0
-   \/ IF TailAlways THEN HashEq(evs[Len(evs)], acc.eh) /\ (memo \/ ChainOK(evs))
-                    ELSE memo \/ (HashEq(evs[Len(evs)], acc.eh) /\ ChainOK(evs))
+   \/ IF TailAlways THEN HashEq(evs[Len(evs)], acc.eh) /\ FirstPhOK(evs) /\ (memo \/ ChainOK(evs))
+                    ELSE memo \/ (HashEq(evs[Len(evs)], acc.eh) /\ FirstPhOK(evs) /\ ChainOK(evs))
 VerifyOK(m) == SigOK(m.sacc) /\ ELVerifyOK(m.events, m.sacc.payload, FALSE)      \* Update.Verify builds a fresh list
 \* Update.Prepend of the message's event list to a genuine target update (events f2..a2 of chain A)
 PrependResult(m, f2, a2) ==
@@ -119,6 +131,25 @@ PrependResult(m, f2, a2) ==
       ELSE IF f2 = 0 \/ lastI < f2 - 1 \/ lastI > a2 THEN [ok |-> FALSE, events |-> Window("A", f2, a2)]
       ELSE IF ELVerifyOK(combined, Acc("A", a2, 0), FALSE) THEN [ok |-> TRUE, events |-> combined]
       ELSE [ok |-> FALSE, events |-> Window("A", f2, a2)]
+
+\* EventList.Verify called a second time on the same list object: the memo fields after the first call are
+\* verified' = memo \/ (first call went through the chain check successfully); validationErr is only set by a
+\* failed chain check, which leaves verified = FALSE
+ELVerifyTwice(evs, acc, memo) ==
+   LET first == ELVerifyOK(evs, acc, memo)
+       memo2 == memo \/ (Len(evs) > 0 /\ first)
+   IN ELVerifyOK(evs, acc, memo2)
+\* Update.Prepend of a GENUINE event list (events g..h of chain c, possibly transported = marked verified) to the
+\* message under attack, whose accumulator memo is set (the receiver called Update.Verify on it before, and the
+\* signature was fine): the combined list is verified from scratch against the message's accumulator
+PrependToMsg(m, c, g, h) ==
+   LET evs == m.events
+       f == evs[1].idx
+       combined == Window(c, g, h) \o SubSeq(evs, h - f + 2, Len(evs))
+   IN IF Len(evs) = 0 \/ ~SigOK(m.sacc) THEN [ok |-> FALSE, events |-> evs]
+      ELSE IF f = 0 \/ h < f - 1 \/ 1 + h - f > Len(evs) THEN [ok |-> FALSE, events |-> evs]
+      ELSE IF ELVerifyOK(combined, m.sacc.payload, FALSE) THEN [ok |-> TRUE, events |-> combined]
+      ELSE [ok |-> FALSE, events |-> evs]
 
 \* ------------------------------------------------------------------ property C10
 GenuineWindow(evs) == \E c \in Chains, a \in 0..L : \E f \in 0..a : evs = Window(c, f, a)
@@ -130,6 +161,10 @@ AuthVerify == VerifyOK(msg) => Authentic(msg)
 AuthEventList == SigOK(msg.sacc) /\ ELVerifyOK(msg.events, msg.sacc.payload, msg.transported # "no") => Authentic(msg)
 AuthPrepend == \A a2 \in 0..L : \A f2 \in 0..a2 :
                   LET r == PrependResult(msg, f2, a2) IN r.ok => \E g \in 0..a2 : r.events = Window("A", g, a2)
+AuthEventListTwice == SigOK(msg.sacc) /\ ELVerifyTwice(msg.events, msg.sacc.payload, msg.transported # "no") => Authentic(msg)
+AuthPrependToMsg == \A c \in Chains, g \in 0..L : \A h \in g..L :
+                       LET r == PrependToMsg(msg, c, g, h) IN
+                         r.ok => Authentic([msg EXCEPT !.events = r.events])
 HashEqIsEquality == \A h1, h2 \in HashPool : Equal(h1, h2) <=> h1 = h2
 \* sanity (must be violated): an accepted mutated message exists, i.e. the invariants are not vacuous
 NoAcceptAfterMutation == ~(nmut > 0 /\ VerifyOK(msg))
